@@ -254,7 +254,9 @@ CLAIMED = {
         'Target.send_dep_res_recv_dep_req over the frame exchange replaced by its contract with ghost flags: a request '
         'repeated with the current PNI or a NAK is answered by the pending response, an attention request by an '
         'attention response (loop invariant). The Initiator transport step never reports a raw TransmissionError '
-        '(it is always answered by NAK/ATN retries): only the response, TimeoutError, ProtocolError or BrokenLinkError.',
+        '(it is always answered by NAK/ATN retries): only the response, TimeoutError, ProtocolError or BrokenLinkError; '
+        'when the first response of a step is corrupted it sends a NAK and returns the response a conforming Target '
+        'retransmits (information PDU, or ACK while chaining).',
    design_ref='DESIGN.md Part A sections A.4 (this property), A.8',
    note='NOT decided: exactly-once delivery and reassembly under fault scripts, the composition of two real endpoints '
         '(each is verified against an assumed contract of the step below it), termination of the Target recovery loop, '
